@@ -127,14 +127,14 @@ def main():
     if special is not None and pid in special.HANDLERS:
         # properties with their own machinery (C17, C18, C20, …)
         rc = special.HANDLERS[pid](pid, tier, seed, args, dict(obligations=obligations, discharged=discharged,
-                                                                 thms=thms, violations=violations, t0=t0,
+                                                                 thms=thms, violations_fn=lambda: violations, t0=t0,
                                                                  trusted=TRUSTED_BASE, violation=violation))
         sys.exit(rc)
 
     # ---- 2. correspondence
     stats = engine.Stats()
     failures = []
-    proj = engine.make_projection(props.PROJECTION.get(pid, engine.ALL_PREFIXES))
+    proj = engine.c19_projection if pid == "C19" else engine.make_projection(props.PROJECTION.get(pid, engine.ALL_PREFIXES), strip_scans=(pid in ("C11", "C12")))
     harness = None
     if not (proof_problems and not os.path.exists(core.DRIVER)):
         try:
@@ -163,7 +163,8 @@ def main():
 
     # ---- 3. classify, shrink, report
     reported = set()
-    for fl in failures[:4]:
+    failures.sort(key=lambda f: 0 if f["mismatch"]["kind"] == "violation" else 1)
+    for fl in failures[:5]:
         kind = fl["mismatch"]["kind"]
         try:
             shrunk = engine.shrink(fl["ops"], harness, proj, kind)
